@@ -420,3 +420,5 @@ def r15_8(cx):
 
 
 RULES = [('R15.1', r15_1), ('R15.2', r15_2), ('R15.3', r15_3), ('R15.4', r15_4), ('R15.5', r15_5), ('R15.6', r15_6), ('R15.7', r15_7), ('R15.8', r15_8)]
+RULES.append(('R15.9', scan_rule(('sliding_deque::sliding_deque::',))))
+FLOORS['R15.9'] = 1
